@@ -206,6 +206,17 @@ example : dump W0 DW0 ⟨.disable, true⟩ 2 (.union [.scalar "str", .scalar "de
     Val.same (.str "1") (.atom "Decimal" "1") = false := by
   refine ⟨by rfl, by rfl, by simp [Val.same]⟩
 
+/-- **Different keys whose dumps are equal are merged by the dict dumper** (so the key
+    condition of `RoundTrippable` is needed): the keys `"1"` and `Decimal("1")` of a
+    `dict[str | Decimal, int]` both dump to `"1"`; one entry is lost. -/
+example : dump W0 DW0 ⟨.first, true⟩ 4
+      (.dict (.union [.scalar "str", .scalar "decimal"] ["str", "Decimal"]) (.scalar "int"))
+      (.dict [(.str "1", .int 1), (.atom "Decimal" "1", .int 2)]) =
+    .ok (.dict [(.str "1", .int 2)]) := by
+  simp [dump, dumpDict, dictItemsD, seqModeDump, seqFirst, bindO, buildDictD, Val.hashable,
+    Val.dictSet, Val.pyEq, dumpUnion, isNoneTyD, dumpUnion.general, literalVals, dumpUnion.byClass,
+    dispatchTable, dispatchCase, DW0, Val.tag, W0]
+
 /-- **`Any` is not stable under JSON** (so `RoundTrippableJson` excludes it): a tuple held
     by an `Any` position comes back as a list. -/
 example : dump W0 DW0 ⟨.disable, true⟩ 1 .any (.tuple [.int 1]) = .ok (.tuple [.int 1]) ∧
